@@ -52,7 +52,7 @@ CLAIMED = {
              "box shape, peak position, refined index and max_shifts >= 0; refutations carry a concrete witness assignment of the extracted "
              "forms. Array-shape tracking proves the ZNCC/NCC crop is symmetric, never empty and within range; an FFT-layout tag proves "
              "crop_by_max_shifts is only applied to FFT-ordered arrays; a def-use rule proves every nm->pixel conversion of max_shifts is "
-             "normalised first. Finiteness of scores on degenerate data is not decided. Added after seeding: the (Z)NCC and FSC landscapes divide only where the norm is positive (finite on constant data), and every refinement is clipped to the caller's own max_shifts.",
+             "normalised first. Finiteness inside the PCC up-sampled DFT is not decided. Added after seeding: the (Z)NCC and FSC landscapes divide only where the norm is positive (finite on constant data), and every refinement is clipped to the caller's own max_shifts.",
         technique="abstract interpretation over ast (affine forms + symbolic array shapes/origins/layouts), Fourier-Motzkin inequality prover, def-use rule",
         ref="5 C05"),
     "C06": dict(
